@@ -1,5 +1,6 @@
 """C01 -- guesses are emitted in non-increasing probability order."""
 from pyvc.runner import Prop, Bounded, script_replay
+from pyvc import effects
 import contracts.guesser_core as gc
 import contracts.guesser_lemmas as gl
 import contracts.guesser_loader as gld
@@ -17,6 +18,7 @@ PROP = Prop(
                # the loaded ruleset is what the files say: base-structure probabilities (skip_brute renormalisation) and groups of equal probability
                (gld.GIO + ':_load_base_structures', gs.install), (gld.GIO + ':_load_from_file', gld.install_reader)],
     lemmas=lambda: gl.all_c01_lemmas() + gld.firstm_stable.lemmas() + gld.groups_desc.lemmas(),
+    effects=effects.state_frame_for('C01', ['lib_guesser/pcfg_grammar.py', 'lib_guesser/priority_queue.py', 'lib_guesser/grammar_io.py']),
     level='proof',
     replay=script_replay('replay/guesser.py'),
     bounded=[Bounded('C01.bounded.run', 'replay/guesser.py', args=['--fn', 'RUN'],
